@@ -91,6 +91,33 @@ template <class V> static bool setScalar(Ctx& c, V v, const std::string& d) {
   return false;
 }
 
+
+// a chain of proxies r[p1][p2]...[pn] written or read in ONE expression (no intermediate JsonVariant): the nested proxy types
+// MemberProxy<ElementProxy<MemberProxy<...>>> resolve and create their targets lazily through their upstream
+template <int Depth, class P>
+static bool chainSet(Ctx& c, P p, const std::vector<std::string>& path, size_t i, const std::string& x) {
+  if (i == path.size()) return setScalar(c, p, x);
+  if constexpr (Depth >= 4) { return false; }
+  else {
+    if (path[i][0] == 'k') { std::string k = unhex(path[i].substr(1)); return chainSet<Depth + 1>(c, p[k], path, i + 1, x); }
+    return chainSet<Depth + 1>(c, p[(size_t)std::stoul(path[i].substr(1))], path, i + 1, x);
+  }
+}
+template <int Depth, class P>
+static JsonVariant chainGet(P p, const std::vector<std::string>& path, size_t i) {
+  if (i == path.size()) return JsonVariant(p);
+  if constexpr (Depth >= 4) { return JsonVariant(); }
+  else {
+    if (path[i][0] == 'k') { std::string k = unhex(path[i].substr(1)); return chainGet<Depth + 1>(p[k], path, i + 1); }
+    return chainGet<Depth + 1>(p[(size_t)std::stoul(path[i].substr(1))], path, i + 1);
+  }
+}
+static std::vector<std::string> splitPath(const std::string& s) {
+  std::vector<std::string> out; size_t a = 0;
+  while (a <= s.size()) { size_t b = s.find('/', a); if (b == std::string::npos) b = s.size(); out.push_back(s.substr(a, b - a)); a = b + 1; }
+  return out;
+}
+
 static std::string runOp(Ctx& c, const std::vector<std::string>& a) {
   auto H = [&](const std::string& s) -> JsonVariant& {
     size_t i = std::stoul(s);
@@ -110,6 +137,22 @@ static std::string runOp(Ctx& c, const std::vector<std::string>& a) {
     bool wantLinked = !hasNul && effKind(c) == 1;
     return v.as<JsonString>().isLinked() == wantLinked;
   };
+  if (op == "chainset" || op == "chainget") {
+    std::vector<std::string> path = splitPath(a[2]);
+    size_t h = std::stoul(a[1]);
+    bool fromDoc = h < c.docs.size() && (alias & 1);      // start from the JsonDocument itself or from a JsonVariant
+    JsonDocument& d0 = *c.docs[fromDoc ? h : 0];
+    bool firstKey = path[0][0] == 'k';
+    std::string k0 = firstKey ? unhex(path[0].substr(1)) : std::string();
+    size_t i0 = firstKey ? 0 : std::stoul(path[0].substr(1));
+    if (op == "chainset") {
+      bool r = !fromDoc ? chainSet<0>(c, H(a[1]), path, 0, a[3])
+               : firstKey ? chainSet<1>(c, d0[k0], path, 1, a[3]) : chainSet<1>(c, d0[i0], path, 1, a[3]);   // the first proxy refers to the document itself
+      return r ? "true" : "false";
+    }
+    JsonVariant v = !fromDoc ? chainGet<0>(H(a[1]), path, 0) : firstKey ? chainGet<1>(d0[k0], path, 1) : chainGet<1>(d0[i0], path, 1);
+    return bindRes(a[3], v);
+  }
   if (op == "set") { bool r = setScalar(c, H(a[1]), a[2]); return r ? (linkOk(H(a[1]), a[2]) ? "true" : "true!LINK") : "false"; }
   if (op == "toarr") { H(a[1]).to<JsonArray>(); return "-"; }
   if (op == "toobj") { H(a[1]).to<JsonObject>(); return "-"; }
